@@ -325,15 +325,8 @@ theorem generator_totals_identity (q : List (Rat × Rat) → Rat × Rat → Nat)
     (hset : genIdentitySetting g tgrid flags m cm = true)
     (hgens : ∀ sg ∈ gens, genPlaced g sgridVol tgrid top bottom sg = true) :
     ∃ outs, transferGenerators q gens g g sgridVol tgrid flags top bottom m cm rename preserve = .ok outs ∧
-      outs.map (fun o => (o.gx, o.rate)) = gens.map (fun sg => (sg.gx, sg.rate)) := by
-  refine ⟨_, generator_transfer_identity q gens g sgridVol tgrid flags top bottom m cm rename preserve hset hgens, ?_⟩
-  rw [List.map_map]
-  generalize 0 = n
-  induction gens generalizing n with
-  | nil => rfl
-  | cons a as ih =>
-    simp only [enumFrom, List.map_cons, Function.comp_apply, List.cons.injEq, true_and]
-    exact ih (fun sg hsg => hgens sg (List.mem_cons_of_mem _ hsg)) (n + 1)
+      outs.map (fun o => (o.gx, o.rate)) = gens.map (fun sg => (sg.gx, sg.rate)) :=
+  Proofs.Mapping.generators_totals_identity q gens g sgridVol tgrid flags top bottom m cm rename preserve hset hgens
 
 /-- the blocks of `exSrc 0`, each of volume 1000, and the identity mappings on them -/
 def exGrid : List (Str × Rat) :=
